@@ -18,6 +18,7 @@ from wpull.backport.logging import StyleAdapter
 from wpull.body import Body
 from wpull.document.css import CSSReader
 from wpull.document.html import HTMLReader
+from wpull.errors import ServerError
 from wpull.path import anti_clobber_dir_path, parse_content_disposition, \
     PathNamer
 import wpull.util
@@ -255,7 +256,7 @@ class BaseFileWriterSession(BaseWriterSession):
         # enums that appear to define this case, it is checked throughout
         # the code, but the HTTP function doesn't even use them.
         # FIXME: unit test is needed for this case
-        raise IOError(
+        raise ServerError(
             _('Server not able to continue file download: {filename}.')
             .format(filename=self._filename))
 
